@@ -63,7 +63,7 @@ def build(t):
     elif kind == "listid":
         typ = ct.ListIdentityObject
     elif kind == "fixedstr":
-        typ = ct.FixedSizeString(t["size"])
+        typ = ct.FixedSizeString(t["size"]) if t.get("cap") is None else ct.FixedSizeString(t["size"], capacity_=t["cap"])
     elif kind == "structtag":
         ms = []
         for name, mt, off in t["members"]:
@@ -124,8 +124,16 @@ def leaf(nested=False):
     opts = [elementary(), elementary(), stringish(nested),
             st.integers(1, 9).map(lambda n: T("nbytes", n=n)),
             st.just(T("ip")), st.just(T("revision")),
-            st.integers(1, 12).map(lambda n: T("fixedstr", size=n))]
+            st.integers(1, 12).map(lambda n: T("fixedstr", size=n)), fixedstr_padded()]
     return st.one_of(*opts)
+
+
+@st.composite
+def fixedstr_padded(draw):
+    """a Logix string type as the driver builds it: DATA padded to a multiple of 4, capacity = the declared length (<= size).
+    Sizes are few on purpose, so that types of the same size and different capacity meet in one process."""
+    size = draw(st.sampled_from([4, 8, 12, 84]))
+    return T("fixedstr", size=size, cap=draw(st.integers(size - 3, size)))
 
 
 NAMES = ["a", "b", "c", "d", "e", "f", "g", "h"]
@@ -284,6 +292,8 @@ def expected_after_roundtrip(t, v):
         return ([s for s, _, _, _ in v], [l for _, _, l, _ in v], [c for _, _, _, c in v])
     if k == "DATE_AND_TIME":
         return tuple(v)
+    if k == "fixedstr":
+        return v[: t["cap"]] if t.get("cap") is not None else v
     if k == "structtag":
         return R.dec(t, R.enc(t, v), 0)[0]   # the reference codec's view: arrays cut to their length, REALs rounded, strings cut to capacity
     return v
@@ -360,7 +370,7 @@ def structtags(draw, depth=1):
         elif kind == "dwords":
             mt = T("array", len=draw(st.integers(1, 2)), el=T("DWORD"), via="factory")
         elif kind == "string":
-            mt = T("fixedstr", size=draw(st.integers(1, 12)))
+            mt = draw(st.one_of(st.integers(1, 12).map(lambda n: T("fixedstr", size=n)), fixedstr_padded()))
         elif kind == "nested":
             mt = draw(structtags(depth=depth - 1))
         elif draw(st.integers(0, 2)) == 0:
